@@ -510,7 +510,52 @@ def make_calls() -> list[CallSpec]:
     C.append(CallSpec('convert(tof->Ltotal, no scatter)', lambda data: scn.convert(data, 'tof', 'wavelength', scatter=False),
                       {'data': da_slot}))
 
+    # ---- beamline accessors on DataArray / Dataset (positions in m / mm)
+    def geo(container, unit):
+        f = {'m': 1.0, 'mm': 1000.0}[unit]
+        coords = {'position': vec([[1.0 * f, 0.5 * f, 2.0 * f], [0.0, 1.0 * f, 1.0 * f]], unit, 'x'),
+                  'source_position': vec([0.0, 0.0, -10.0 * f], unit), 'sample_position': vec([0.0, 0.0, 0.0], unit)}
+        da = sc.DataArray(sc.ones(sizes={'x': 2}, unit='counts'), coords=coords)
+        return da if container == 'DataArray' else sc.Dataset({'a': da, 'b': da * 2.0})
+    geo_slot = [(f'{c}/{u}', ui + 1, ci + 1, lambda c=c, u=u: geo(c, u))
+                for ui, u in enumerate(('m', 'mm')) for ci, c in enumerate(('DataArray', 'Dataset'))]
+    for acc in ('position', 'source_position', 'sample_position', 'incident_beam', 'scattered_beam', 'L1', 'L2',
+                'two_theta'):
+        C.append(CallSpec(f'scippneutron.{acc}', getattr(scn, acc), {'da': geo_slot}, positional=True))
+    for sct in (True, False):
+        C.append(CallSpec(f'scippneutron.Ltotal(scatter={sct})', lambda da, sct=sct: scn.Ltotal(da, scatter=sct),
+                          {'da': geo_slot}))
+
+    def ds_tof(unit, dtype):
+        da = make_da(unit, dtype, False)
+        return sc.Dataset({'a': da, 'b': da * 2.0})
+    ds_slot = [(f'{u}/{dt}', ui + 1, di + 1, lambda u=u, dt=dt: ds_tof(u, dt))
+               for ui, u in enumerate(('us', 'ns')) for di, dt in enumerate(NUM_DT)]
+    C.append(CallSpec('convert(Dataset, tof->wavelength)', lambda data: scn.convert(data, 'tof', 'wavelength', scatter=True),
+                      {'data': ds_slot}))
+
     # ---- chopper
+    from scippneutron.chopper import extract_chopper_from_nexus
+
+    def nexus_group(unit, as_log=True):
+        deg = lambda v: sc.array(dims=['slit'], values=v, unit='deg').to(unit=unit)  # noqa: E731
+        log = sc.DataGroup({'value': sc.DataArray(sc.array(dims=['time'], values=[14.0], unit='Hz'),
+                                                  coords={'time': sc.array(dims=['time'], values=[0], unit='s')})})
+        return {'type': 'Chopper type single', 'position': vec([0.0, 0.0, 5.0]),
+                'rotation_speed': log if as_log else sc.scalar(14.0, unit='Hz'),
+                'beam_position': sc.scalar(30.0, unit='deg').to(unit=unit), 'phase': sc.scalar(15.0, unit='deg').to(unit=unit),
+                'slit_edges': deg([0.0, 40.0, 90.0, 130.0]), 'slit_height': sc.scalar(0.1, unit='m'),
+                'radius': sc.scalar(0.5, unit='m')}
+    nx_slot = [(u, i + 1, 1, lambda u=u: nexus_group(u)) for i, u in enumerate(('deg', 'rad'))]
+    C.append(CallSpec('chopper.extract_chopper_from_nexus', extract_chopper_from_nexus, {'chopper': nx_slot},
+                      positional=True))
+    C.append(CallSpec('chopper.DiskChopper.from_nexus', lambda chopper: DiskChopper.from_nexus(
+        extract_chopper_from_nexus(chopper)),
+        {'chopper': [(u, i + 1, 1, lambda u=u: nexus_group(u, as_log=False)) for i, u in enumerate(('deg', 'rad'))]}))
+    C.append(CallSpec('chopper.DiskChopper.from_nexus (post-processed group)', DiskChopper.from_nexus,
+                      {'chopper': [(u, i + 1, 1, lambda u=u: extract_chopper_from_nexus(nexus_group(u, as_log=False)))
+                                   for i, u in enumerate(('deg', 'rad'))]}, positional=True))
+
     def mk_disk(unit, dtype):
         ang = lambda v: sc.array(dims=['slit'], values=v, unit='deg').to(unit=unit).astype(dtype)  # noqa: E731
         return DiskChopper(axle_position=vec([0.0, 0.0, 5.0]), frequency=sc.scalar(28.0, unit='Hz'),
